@@ -39,6 +39,8 @@ func c02Values() []sb.V {
 		str(""), str("a"), str("abc def"), str("12"), str("é日本"), str("now"), str("\xff"),
 		{K: "arr"}, {K: "arr", E: []sb.V{num(1), str("a"), {K: "null"}}}, {K: "slice:int", E: []sb.V{num(3), num(1), num(2)}}, {K: "slice:str", E: []sb.V{str("b"), str("a")}},
 		{K: "array:int", E: []sb.V{num(1)}}, {K: "nilslice:int"},
+		longArr(12), longArr(21), {K: "arr", E: []sb.V{{K: "arr", E: []sb.V{num(1)}}, {K: "arr", E: []sb.V{num(2)}}}},
+		{K: "slice:any", E: []sb.V{{K: "hash", KS: []string{"a"}, E: []sb.V{num(1)}}, {K: "arr", E: []sb.V{num(2)}}}},
 		{K: "hash"}, {K: "hash", KS: []string{"a", "b"}, E: []sb.V{num(1), str("x")}}, {K: "map:int:str", KV: []sb.V{{K: "int", N: 1}}, E: []sb.V{str("one")}}, {K: "nilmap:str"},
 		person, {K: "ptr", E: []sb.V{person}}, {K: "nilptr:person"}, {K: "ptr", E: []sb.V{{K: "slice:int", E: []sb.V{num(1), num(2)}}}},
 		{K: "stringer", S: "strg"}, {K: "decimal", S: "1.50"}, {K: "safe", TS: []string{"html"}, E: []sb.V{str("<b>")}}, {K: "time"}, {K: "chan"}, {K: "func"},
@@ -51,7 +53,7 @@ func c02ArgLists() [][]sb.V {
 	return [][]sb.V{
 		{}, {num(0)}, {num(1)}, {num(-1)}, {num(2)}, {num(2.5)}, {num(1e18)}, {str("x")}, {str("")}, {{K: "null"}}, {{K: "bool", B: true}},
 		{{K: "arr", E: []sb.V{num(1)}}}, {{K: "hash", KS: []string{"a"}, E: []sb.V{str("b")}}}, {{K: "arr"}},
-		{num(2), str("x")}, {num(0), num(0)}, {str("a"), str("b")}, {num(-3), {K: "null"}}, {num(2), {K: "null"}}, {str("Y-m-d"), str("UTC")},
+		{num(2), str("x")}, {num(3.5)}, {num(2.5), str("fill")}, {num(0), num(0)}, {str("a"), str("b")}, {num(-3), {K: "null"}}, {num(2), {K: "null"}}, {str("Y-m-d"), str("UTC")},
 		{num(3), str("No"), num(1)}, {num(1), num(2), num(3)}, {{K: "null"}, {K: "null"}, {K: "null"}},
 		// hostile strings (format / separator / pattern arguments)
 		{str("\\")}, {str("Y-m-d\\")}, {str("\\Y\\")}, {str("%s %d %")}, {str("é\xff")}, {str("dDjlNSwzWFmMntLoYyaABgGhHisueIOPTZcrU")}, {str("\\"), str("\\")},
@@ -235,4 +237,12 @@ func renameTemplates(p *m.Program, ren map[string]string) {
 	if n, ok := ren[p.Entry]; ok {
 		p.Entry = n
 	}
+}
+
+func longArr(n int) sb.V {
+	v := sb.V{K: "arr"}
+	for i := 0; i < n; i++ {
+		v.E = append(v.E, sb.V{K: "num", N: float64(i)})
+	}
+	return v
 }
